@@ -33,6 +33,19 @@ def work(repo, items, order):
         idx = [i for b in reversed(blocks) for i in b]
     for i in idx:
         it = items[i]
+        if it["q"] == "__construct__":          # the constructor itself: accepted (with which sequence) or refused
+            out[i] = {"d": objmodel.dcall(lambda: lc.SP(it["seq"]).get_sequence()), "post": None, "post0": None}
+            continue
+        if it["q"] == "__parsefile__":          # a file with the given text: parsed to which sequence, or refused
+            path = os.path.join(os.path.dirname(__file__), "..", ".work", "objfiles", "swap-%d.txt" % os.getpid())
+            os.makedirs(os.path.dirname(path), exist_ok=True)
+            with open(path, "wb") as f:
+                f.write(it["seq"].encode("utf-8", "surrogateescape"))
+            try:
+                out[i] = {"d": objmodel.dcall(lambda: lc.SP(sequenceFile=path).get_sequence()), "post": None, "post0": None}
+            finally:
+                os.remove(path)
+            continue
         o = objs.get(it["obj"])
         post0 = None
         if o is None:
@@ -52,8 +65,10 @@ def main():
     json.dump(work(repo, items, order), open(outp, "w"))
 
 
-def run_both(ctx, items, tag="swap"):
-    """Run the two processes side by side; returns (forward replies, reverse replies)."""
+def run_both(ctx, items, tag="swap", vary_env=True):
+    """Run the two processes side by side; returns (forward replies, reverse replies).  The second process also runs in another
+    interpreter environment a user may well have: assertions disabled (-O) and another hash seed (set / dict iteration order);
+    what a query returns must not depend on either."""
     import subprocess
     from . import common, tlc
     os.makedirs(ctx.work, exist_ok=True)
@@ -62,8 +77,11 @@ def run_both(ctx, items, tag="swap"):
     procs = []
     for order in ("forward", "reverse"):
         outp = os.path.join(ctx.work, "%s_%s.json" % (tag, order))
+        env = dict(os.environ)
+        if vary_env and order == "reverse":
+            env.update({"PYTHONOPTIMIZE": "1", "PYTHONHASHSEED": str(4242 + ctx.seed)})
         procs.append((outp, subprocess.Popen([sys.executable, "-m", "harness.orderswap", ctx.repo, inp, outp, order], cwd=common.VERIF,
-                                             stdout=subprocess.PIPE, stderr=subprocess.STDOUT, text=True)))
+                                             stdout=subprocess.PIPE, stderr=subprocess.STDOUT, text=True, env=env)))
     res = []
     for outp, p in procs:
         so, _ = p.communicate(timeout=7200)
@@ -71,6 +89,20 @@ def run_both(ctx, items, tag="swap"):
             raise tlc.MachineryError("order-swap process failed: " + so[-600:])
         res.append(json.load(open(outp)))
     return res[0], res[1]
+
+
+def env_differential(ctx, items, clause, tag):
+    """The same questions in a default interpreter and in one with assertions disabled and another hash seed: whether an
+    argument is accepted or refused, and every reply, must be the same."""
+    from . import objmodel
+    fw, rv = run_both(ctx, items, tag=tag)
+    for it, a, b in zip(items, fw, rv):
+        ctx.evaluations += 1
+        if not objmodel.same_reply(a["d"], b["d"]):
+            ctx.violation(clause, {"seq": it["seq"], "call": it["q"], "args": it.get("a", []),
+                                   "environment": "python -O (assertions disabled), PYTHONHASHSEED=%d" % (4242 + ctx.seed)},
+                          expected=a["d"][:200], actual=b["d"][:200])
+    ctx.extra["questions_repeated_in_another_interpreter_environment"] = len(items)
 
 
 if __name__ == "__main__":
